@@ -54,6 +54,11 @@ pub struct Case {
     pub ops: Vec<Op>,
     pub finish: bool,
     pub hash_seed: u64,
+    /// position in the route of a link whose per-train-type map of restriction sets has no entry for this train's
+    /// type (and no general set): an extension that reaches it must be refused - the same way whatever the map's
+    /// iteration order - and never borrow another type's restrictions
+    #[serde(default)]
+    pub no_set_for_type_at: Option<usize>,
 }
 
 pub fn train_params(t: &TrainSpec) -> TrainParams {
@@ -82,6 +87,10 @@ pub fn generate(rng: &mut Rng, focus: &str, _thorough: bool) -> Case {
             o.siding_len = (30.0, 150.0);
             o.max_restr = rng.usize(1, 6);
         }
+    }
+    if focus == "C18" && rng.chance(0.7) {
+        // per-train-type maps of restriction sets: their iteration order is the nondeterminism in question
+        o.by_type = true;
     }
     let links = gen_network(rng, &o);
     let ns = o.n_sidings;
@@ -132,8 +141,15 @@ pub fn generate(rng: &mut Rng, focus: &str, _thorough: bool) -> Case {
     if rng.chance(0.2) {
         ops.push(Op::Crash { fmt: *rng.pick(&[Fmt::Yaml, Fmt::Bin, Fmt::Json]), chan: Chan::Str });
     }
-    let mut c = Case { links, train, route, ops, finish: rng.chance(0.5), hash_seed: rng.next() };
+    let mut c = Case { links, train, route, ops, finish: rng.chance(0.5), hash_seed: rng.next(), no_set_for_type_at: None };
     c.train.train_type = type_from_bits(c.hash_seed >> 17);
+    if focus != "C06" && rng.chance(if focus == "C18" { 0.5 } else { 0.12 }) {
+        let at = rng.usize(0, c.route.len() - 1);
+        let l = &mut c.links[c.route[at] as usize];
+        if l.speed_set.is_none() && l.speed_sets.len() >= 3 && l.speed_sets.remove(&c.train.train_type).is_some() {
+            c.no_set_for_type_at = Some(at);
+        }
+    }
     c
 }
 
@@ -363,7 +379,22 @@ pub fn execute(case: &Case, ctx: &mut Ctx) {
     let do_extend = |ctx: &mut Ctx, p: &mut PathTpc, done: &mut usize, k: usize, what: &str| -> bool {
         let k = k.min(route.len() - *done);
         ctx.layer = "path.extend";
+        let must_refuse = case.no_set_for_type_at.map(|at| at >= *done && at < *done + k).unwrap_or(false);
         match p.extend(links, &lroute[*done..*done + k]) {
+            Err(_) if must_refuse => {
+                // (the error text lists the map's keys in iteration order: it is not part of the compared outcome)
+                ctx.hit("fault.net.no_restriction_set_for_this_train_type");
+                ctx.trace.u(0x5e7_0000 + *done as u64);
+                false
+            }
+            Ok(()) if must_refuse => {
+                for sp in p.speed_points() {
+                    ctx.trace.f(sp.offset.value);
+                    ctx.trace.f(sp.speed_limit.value);
+                }
+                ctx.violate("C13", "speed_profile", "a link that posts nothing for this train type is refused, not given another type's restrictions", format!("{what}: extension over route position {:?} accepted; profile {:?}", case.no_set_for_type_at, speed_pts(p).iter().take(8).collect::<Vec<_>>()));
+                false
+            }
             Ok(()) => {
                 *done += k;
                 ctx.hit("stat.extend_calls");
